@@ -241,6 +241,15 @@ def Stmt.pretty (st : Stmt) (p : Params) (col : Option Nat) (fs : Nat) : Except 
 
 def future : Str := "__future__".toList
 
+/-- insertion sort (`sorted(...)`; the keys sorted here are pairwise distinct, so stability is moot) -/
+def insertBy {α} (le : α → α → Bool) (a : α) : List α → List α
+  | [] => [a]
+  | b :: bs => if le a b then a :: b :: bs else b :: insertBy le a bs
+
+def isort {α} (le : α → α → Bool) : List α → List α
+  | [] => []
+  | a :: as => insertBy le a (isort le as)
+
 /-- lexicographic `≤` on (fullname, import_as): `Import.__lt__` -/
 def impLe (a b : Imp) : Bool :=
   strLt a.fullname b.fullname || (a.fullname = b.fullname && strLe a.importAs b.importAs)
@@ -279,12 +288,12 @@ def groupStmts (g : List Imp) : Except Err (List Stmt) := do
   let non := g.filter (fun i => i.importAs ≠ star)
   if stars.length > 1 then throw .assertion
   let a ← if stars = [] then pure [] else (do let s ← stmtOf stars; pure [s])
-  let b ← if non = [] then pure [] else (do let s ← stmtOf (non.mergeSort impLe); pure [s])
+  let b ← if non = [] then pure [] else (do let s ← stmtOf (isort impLe non); pure [s])
   pure (a ++ b)
 
 /-- `ImportSet.get_statements(separate_from_imports)`; `S` is the duplicate-free `_importset`. -/
 def getStatements (S : List Imp) (sepFrom : Bool) : Except Err (List Stmt) := do
-  let keys := ((S.map (gkeyOf sepFrom)).eraseDups).mergeSort gkLe
+  let keys := isort gkLe ((S.map (gkeyOf sepFrom)).eraseDups)
   let groups ← keys.mapM fun k => groupStmts (S.filter fun i => gkeyOf sepFrom i = k)
   pure groups.flatten
 
